@@ -442,6 +442,29 @@ func ruleMultilineReader(c *Ctx) {
 		})
 		okB := inc['('] && inc['['] && inc['{'] && dec[')'] && dec[']'] && dec['}'] && len(inc) == 3 && len(dec) == 3
 		c.Ob("R6-brackets", "base.ReadMultiline/mNormal/brackets", cl, okB, "( [ { increment and ) ] } decrement the bracket depth")
+		// the division operator: after '/', any whitespace (ch <= ' ') marks a pending continuation
+		if sl := arm["mSlash"]; sl != nil {
+			okSlash := false
+			ast.Inspect(sl, func(n ast.Node) bool {
+				ifs, ok := n.(*ast.IfStmt)
+				if !ok {
+					return true
+				}
+				b, ok := unparen(ifs.Cond).(*ast.BinaryExpr)
+				if !ok || identOf(b.X) == nil || identOf(b.X).Name != "ch" {
+					return true
+				}
+				v, isC := constInt(info, b.Y)
+				covers := isC && ((b.Op == token.LEQ && v == ' ') || (b.Op == token.LSS && v == ' '+1))
+				for _, st := range ifs.Body.List {
+					if as, ok := st.(*ast.AssignStmt); ok && len(as.Lhs) == 1 && usesObj(as.Lhs[0], nlObj) && identOf(as.Rhs[0]) != nil && identOf(as.Rhs[0]).Name == "true" && covers {
+						okSlash = true
+					}
+				}
+				return true
+			})
+			c.Ob("R6-continuation", "base.ReadMultiline/mSlash/division", sl, okSlash, "a '/' followed by any whitespace, the space included (ch <= ' '), is a division operator that continues the statement on the next line")
+		}
 		need := []int64{',', '=', '&', '|', '*', '<', '>', '%', '^', '!'}
 		miss := []string{}
 		for _, ch := range need {
